@@ -44,6 +44,12 @@ class PoolMP(FakeMP):
         return type(item).__name__
 
 
+def _canon(items):
+    if items is None:
+        return None
+    return [tuple(x) if isinstance(x, (list, tuple)) else x for x in items]
+
+
 def make_ids(kind, n):
     if kind == 0:
         return list(range(n))
@@ -65,7 +71,8 @@ class Engine:
             "ids, transient network errors, tolerate_fails, irun/run, callbacks), every scheduling decision and "
             "every delay are drawn from one choice list. Non-trivial = the multi-process path ran (>=2 workers, "
             ">=2 ids). Distinct = distinct SHA-256 of the sequence of (task, operation) events of the run.")
-    components_real = ["annet.parallel.Parallel.irun/run/_check_children/_run_callbacks/_cb_wrapper",
+    components_real = ["annet.api.patch / annet.api.gen with PoolProgressLogger over simulated devices (1 run in 12)",
+                       "annet.parallel.Parallel.irun/run/_check_children/_run_callbacks/_cb_wrapper",
                        "annet.parallel.pool_worker/_pool_worker/invoke_retry/TaskResult/PickleSafeException",
                        "pickle round trip of every queue item", "queue.Empty"]
     components_stub = ["multiprocessing (FakeMP: processes are baton-passed threads; Queue with feeder delay, "
@@ -84,10 +91,142 @@ class Engine:
         import annet.parallel as P  # noqa
         self.P = P
         simloop.install()
+        # production callers (api.patch / api.gen over several devices) need the whole annet environment
+        from .. import env
+        from ..worlds import fakes as F
+        self.provider = env.init()
+        F.install()
+        import annet.api as api
+        from annet import cli_args
+        self.api, self.cli_args, self.F = api, cli_args, F
+
+    # ------------------------------------------------------------------ production callers through the pool
+    def _run_production(self, ch):
+        """api.patch / api.gen (the production callers of the pool) over 2..6 simulated devices with parallel > 1 on the
+        fake multiprocessing: one outcome per device id, equal to what the single-process path computes"""
+        import annet.gen as ann_gen
+        from annet.annlib.rbparser.ordering import compile_ordering_text
+        from annet.rulebook.deploying import compile_deploying_text
+        from annet.rulebook.patching import compile_patching_text
+        from .cli import CliWorld, VENDORS
+        from ..worlds import cli as W
+        P, F = self.P, self.F
+        ndev = 2 + ch.draw(5, "prod-ndev")
+        world = CliWorld(ch, "C01", ch.draw(1000000, "serial"), ndev=ndev)
+        F.WORLD = world
+        vkey = VENDORS[world.vname][0]
+        rbc = {"patching": compile_patching_text(world.rb_text, vkey), "ordering": compile_ordering_text(world.order_text, vkey),
+               "deploying": compile_deploying_text("", vkey)}
+        self.provider.register(world.hw, rbc)
+        for d in world.inv:
+            world.desired[d.id] = W.gen_tree(ch, world.rb)
+        front = ch.pick(["patch", "gen"], "prod-front")
+        par = 2 + ch.draw(4, "prod-parallel")
+        max_tasks = ch.pick([None, 1, 2, 25], "prod-max-tasks")
+        progress = ch.draw(2, "prod-progress") == 1
+        fetch_fail = set()      # (api.patch treats a failed fetch as an empty config; not this property's business)
+        world.fetch_plan = {i: {"fail": "exc"} for i in fetch_fail}
+        cfg = {"feeder_delay": [0.0, 0.01, 0.4], "start_delay": [0.0, 0.3], "exit_delay": [0.0, 0.3, 1.2],
+               "stall_den": ch.pick([0, 6], "prod-stall"), "stall": [0.01, 0.5, 1.1]}
+        loader = F.SimLoader(world.inv, lambda d: (world.gens, []))
+
+        def call(parallel):
+            if front == "patch":
+                args = self.cli_args.ShowPatchOptions(query=F.SimQuery(), config="running", parallel=parallel, max_tasks=max_tasks,
+                                                      tolerate_fails=True, indent="  ", show_hosts_progress=progress)
+                ann_gen.live_configs = None
+                return self.api.patch(args, loader)
+            args = self.cli_args.ShowGenOptions(query=F.SimQuery(), parallel=parallel, max_tasks=max_tasks, tolerate_fails=True,
+                                                indent="  ", show_hosts_progress=progress)
+            return self.api.gen(args, loader)
+        results = {}
+        sims = []
+        faults, probes = {}, {}
+        try:
+            for parallel in (1, par):
+                sim = Sim(ch, max_steps=60000, strategy={"kind": "uniform"}, time_limit=100000.0)
+                mp = PoolMP(sim, cfg)
+                outcome = {}
+
+                def parent(parallel=parallel, outcome=outcome):
+                    try:
+                        outcome["res"] = call(parallel)
+                    except BaseException as e:  # pylint: disable=broad-except
+                        if type(e).__name__ == "Killed":
+                            raise
+                        outcome["exc"] = e
+                saved = seams.bind(P, sim, fake_mp=mp, fake_time=FakeTime(sim, __import__("time")),
+                                   fake_os=seams.OsProxy(sim, __import__("os")), require=("mp", "time"))
+                try:
+                    sim.spawn("parent", parent)
+                    end = None
+                    try:
+                        sim.run()
+                    except (Deadlock, StepCap) as e:
+                        end = str(e)
+                    sim.kill_all()
+                finally:
+                    seams.unbind(P, saved)
+                sims.append(sim)
+                for k, v in mp.fired.items():
+                    faults[k] = faults.get(k, 0) + v
+                if any(p._exitcode == 9 for p in mp.processes):
+                    faults["retire"] = faults.get("retire", 0) + 1
+                if end is not None:
+                    return self._prod_result(ch, world, front, par, sims, faults, probes,
+                                             {"clause": "no-termination", "key": "production-caller", "detail": {"why": end, "front": front}})
+                if "exc" in outcome:
+                    return self._prod_result(ch, world, front, par, sims, faults, probes,
+                                             {"clause": "unexpected-exception", "key": "production-caller",
+                                              "detail": {"exc": repr(outcome["exc"])[:300], "front": front, "parallel": parallel}})
+                results[parallel] = outcome["res"]
+        finally:
+            self.provider.unregister(world.hw)
+            for f in (compile_patching_text, compile_ordering_text, compile_deploying_text):
+                f.cache_clear()
+            F.WORLD = None
+        violation = None
+        ids = [d.id for d in world.inv]
+        ok1, fail1 = results[1]
+        okp, failp = results[par]
+        for name, (ok, fail) in (("single-process", (ok1, fail1)), ("pool", (okp, failp))):
+            got = sorted(list(ok) + list(fail))
+            if got != sorted(ids):
+                violation = {"clause": "lost-result" if len(got) < len(ids) else "duplicate-result", "key": "production-caller",
+                             "detail": {"front": front, "path": name, "submitted": ids, "delivered": got, "parallel": par}}
+                break
+            if set(fail) != fetch_fail:
+                violation = {"clause": "wrong-failure-attribution", "key": "production-caller",
+                             "detail": {"front": front, "path": name, "failed": sorted(fail), "expected_failed": sorted(fetch_fail)}}
+                break
+        if violation is None:
+            for i in ids:
+                if i in ok1 and _canon(ok1[i]) != _canon(okp.get(i)):
+                    violation = {"clause": "wrong-payload", "key": "production-caller",
+                                 "detail": {"front": front, "device": i, "single_process": _canon(ok1[i]), "pool": _canon(okp.get(i))}}
+                    break
+        if par > 1 and len(ids) > 1:
+            probes["production_caller_through_pool"] = 1
+        return self._prod_result(ch, world, front, par, sims, faults, probes, violation)
+
+    def _prod_result(self, ch, world, front, par, sims, faults, probes, violation):
+        trace = []
+        for sim in sims:
+            trace.extend(sim.trace)
+        h = hashlib.sha256(("prod|%s|%s|" % (front, world.vname)).encode())
+        for ev in trace:
+            h.update(("%s|%s;" % (ev[2], ev[3])).encode())
+        return {"violation": violation, "nontrivial": True, "sig": int.from_bytes(h.digest()[:8], "big"),
+                "sim_s": sum(s.now for s in sims), "steps": sum(s.steps for s in sims), "faults": faults, "probes": probes,
+                "strategy": "production-" + front, "scenario": {"mode": "production caller", "front": front, "parallel": par,
+                                                               "devices": len(world.inv), "vendor": world.vname},
+                "trace": trace}
 
     # ------------------------------------------------------------------ one run
     def run(self, ch):
         P = self.P
+        if ch.draw(12, "production-caller") == 0:
+            return self._run_production(ch)
         # --- swarm: which fault kinds are enabled in this run
         on = {k: ch.draw(2, "swarm-" + k) == 1 for k in
               ("raise", "net", "retire", "slow_consumer", "slow_callback", "feeder", "start", "exit", "stall", "cb_raise",
